@@ -187,7 +187,11 @@ class Interp:
             env[p["id"]] = a
         for p in f["params"][len(args):]:
             env[p["id"]] = ("null",)
+        if not hasattr(self, "_ret"):
+            self._ret = []
+        self._ret.append(None)
         self.block(f["body"], env, depth, f)
+        return self._ret.pop()
 
     # -- statements ---------------------------------------------------------------------------------
     def block(self, n, env, depth, f):
@@ -207,6 +211,9 @@ class Interp:
                 env[d["id"]] = ("loc", self.new_loc(self.construct(d, env, depth, f)))
             return False
         if k == "ReturnStmt":
+            # value-returning helpers (e.g. a factory of a permutation): the value is kept for the caller
+            if n.get("c") and getattr(self, "_ret", None):
+                self._ret[-1] = self.rv(self.ev(n["c"][0], env, depth, f))
             return True
         if k == "IfStmt":
             c = self.cond(n["cond"], env, depth, f)
@@ -797,8 +804,8 @@ class Interp:
                     vals.append(self.rv(v))
             if base.endswith("::disna"):
                 return ("opaque", "disna")
-            self.call(g, vals, depth + 1)
-            return ("opaque", "void")
+            rv = self.call(g, vals, depth + 1)
+            return rv if rv is not None else ("opaque", "void")
         if fn.startswith("std::") or fn.startswith("Eigen::"):
             return ("opaque", fn)
         raise Undecided("%s: call of %s" % (where, fn[:80]))
